@@ -106,9 +106,10 @@ func routingCase(t *T, params bool) {
 		capacity = pick(r, []int{1, 2, 3, 1000})
 	}
 	encoded := chance(r, 1, 5) // UseEncodedPath: ServeHTTP routes on URL.EscapedPath()
+	strict := chance(r, 1, 5)  // StrictLastSlash: a trailing slash is part of the path
 	var probeLog []string
 	t.Describe(func() any {
-		return map[string]any{"routes": tb.Describe(), "cache_capacity": capacity, "UseEncodedPath": encoded, "failing_probes": probeLog}
+		return map[string]any{"routes": tb.Describe(), "cache_capacity": capacity, "UseEncodedPath": encoded, "StrictLastSlash": strict, "failing_probes": probeLog}
 	})
 	var opts []func(*rux.Router)
 	if capacity >= 0 {
@@ -117,18 +118,21 @@ func routingCase(t *T, params bool) {
 	if encoded {
 		opts = append(opts, rux.UseEncodedPath)
 	}
+	if strict {
+		opts = append(opts, rux.StrictLastSlash)
+	}
 	router := BuildRouter(tb, opts...)
 	t.AutoSample()
 
 	paths := tb.ProbePaths(r, 2, 5)
 	tableKey := fmt.Sprint(tb.Describe())
-	if params && !encoded {
+	if params && !encoded && !strict {
 		defer redispatchProbes(t, tb, router, paths, &probeLog)
 	}
 
 	for _, probe := range paths {
 		path := probe.Path
-		npath, ok := RefNormalize(path, false)
+		npath, ok := RefNormalize(path, strict)
 		if !ok {
 			continue
 		}
@@ -219,7 +223,7 @@ func routingCase(t *T, params bool) {
 				// the dispatcher works on the escaped spelling of the URL path: so does the model
 				t.Count("probes.encoded_path", 1)
 				var ok bool
-				if snpath, ok = RefNormalize((&url.URL{Path: path}).EscapedPath(), false); !ok {
+				if snpath, ok = RefNormalize((&url.URL{Path: path}).EscapedPath(), strict); !ok {
 					continue
 				}
 				want, _ = tb.Resolve(um, snpath, false)
